@@ -459,11 +459,17 @@ where
     fn call(&mut self, req: http::Request<BIn>) -> Self::Future {
         let (parts, body) = req.into_parts();
 
+        let Some(protocol) = HttpProtocol::from_version(parts.version) else {
+            return self::future::ResponseFuture::error(ConnectionError::UnsupportedVersion(
+                parts.version,
+            ));
+        };
+
         let connector = Connector::new(
             self.transport.clone(),
             self.protocol.clone(),
             parts.clone(),
-            parts.version.into(),
+            protocol,
         );
 
         let req = http::Request::from_parts(parts, body);
@@ -542,8 +548,7 @@ mod future {
             }
         }
 
-        #[allow(dead_code)]
-        fn error(error: ConnectionError) -> Self {
+        pub(super) fn error(error: ConnectionError) -> Self {
             Self {
                 inner: ResponseFutureState::ConnectionError(Some(error)),
                 meta: ConnectorMeta::new(),
